@@ -49,6 +49,7 @@ def _types() -> dict[str, Any]:
     g = globals()
     g["Holder"], g["SeqHolder"], g["BareHolder"], g["NestedUnionHolder"] = c20types.Holder, c20types.SeqHolder, c20types.BareHolder, c20types.NestedUnionHolder
     g["TupleHolder"] = c20types.TupleHolder
+    g["SameOriginUnionHolder"] = c20types.SameOriginUnionHolder
     return g
 
 
@@ -60,7 +61,7 @@ class AlwaysEq:
         return 7
 
 
-WRAPPERS = ("list", "tuple", "dict", "state", "stateseq", "barestate", "nestedunionstate", "tuplestate")
+WRAPPERS = ("list", "tuple", "dict", "state", "stateseq", "barestate", "nestedunionstate", "tuplestate", "sameoriginunionstate")
 
 
 def wrap(kind: str, inner: Any, sib: Any = None) -> Any:
@@ -79,6 +80,8 @@ def wrap(kind: str, inner: Any, sib: Any = None) -> Any:
         return g["NestedUnionHolder"](value=inner, tag=3)
     if kind == "tuplestate":
         return g["TupleHolder"](pair=(inner, 4), tag=4)
+    if kind == "sameoriginunionstate":
+        return g["SameOriginUnionHolder"](pair=(5, inner), tag=5)
     return g["SeqHolder"](items=[inner] if sib is None else [sib, inner])
 
 
@@ -95,7 +98,7 @@ def walk(a: Any, b: Any, path: str, out: list[tuple[str, Any, Any]]) -> None:
     elif isinstance(a, dict) and isinstance(b, dict) and a.keys() == b.keys():
         for k in a:
             walk(a[k], b[k], f"{path}[{k!r}]", out)
-    elif isinstance(a, (g["Holder"], g["SeqHolder"], g["BareHolder"], g["NestedUnionHolder"], g["TupleHolder"])) and type(a) is type(b):
+    elif isinstance(a, (g["Holder"], g["SeqHolder"], g["BareHolder"], g["NestedUnionHolder"], g["TupleHolder"], g["SameOriginUnionHolder"])) and type(a) is type(b):
         for k in type(a).__ATTRIBUTES__:
             walk(getattr(a, k, None), getattr(b, k, None), f"{path}.{k}", out)
     else:
@@ -115,7 +118,7 @@ def apply(op: str, v: Any) -> Any:
             return v.updated()
         if op == "updated-other":
             return v.updated(items=v.items) if seq else v.updated(tag=7)
-        if isinstance(v, globals()["TupleHolder"]):
+        if isinstance(v, (globals()["TupleHolder"], globals()["SameOriginUnionHolder"])):
             return v.updated(pair=v.pair)
         return v.updated(opt=v.opt) if seq else v.updated(value=v.value)  # the attribute that holds (or wraps) the missing value, as it is
     if op == "copy":
@@ -386,7 +389,7 @@ def run(R: Recorder, tier: str, seed: int, shard: int, nshards: int) -> None:
                 R.case({"shape": list(chain), "op": "construct"}, nontrivial=True)
                 R.monitor("identity", False, where={"op": "construct", "kind": "raised", "top": chain[0]}, detail=f"building {list(chain)} around MISSING raised {type(exc).__name__}: {exc}", case={"shape": list(chain), "op": "construct"})
                 continue
-            for op in OPS + (STATE_OPS if chain and chain[0] in ("state", "barestate", "stateseq", "nestedunionstate", "tuplestate") else []):
+            for op in OPS + (STATE_OPS if chain and chain[0] in ("state", "barestate", "stateseq", "nestedunionstate", "tuplestate", "sameoriginunionstate") else []):
                 check_roundtrip(R, list(chain), v, op, depth)
             # a variant with a look-alike sibling next to the innermost MISSING
             if depth >= 1:
